@@ -367,11 +367,15 @@ func growRequest(op *Op) int {
 // shape is what can be known from outside about the storage of a buffer that
 // follows the documented growth policy: its capacity (measured with Cap() in
 // the executor, predicted in the generator) and the number of consumed bytes
-// still in front of the unread part. It only produces class labels and
-// generator aims, never verdicts.
+// still in front of the unread part (off). It produces class labels and
+// generator aims; off additionally tells the ReWrite oracle which unread bytes
+// a storage position addresses. Whenever the measurement contradicts the
+// bookkeeping, unknown is set and ReWrite is skipped instead of judged until
+// the layout is certain again (Reset, Truncate(0), or a measured reallocation).
 type shape struct {
 	cap, off int
 	nilBuf   bool
+	unknown  bool
 }
 
 // grow classifies a request for n more bytes on a buffer with `length` unread
@@ -407,8 +411,12 @@ func (s *shape) grow(length, n, measured int, direct bool) (labels []string) {
 			path = "realloc"
 		case path != "reslice":
 			path = "slide"
+			s.unknown = true // no new storage, yet not what the policy predicts: off is a guess
 		}
 		newCap = measured
+	}
+	if newCap != s.cap {
+		s.unknown = false // new storage: the unread part starts at its beginning
 	}
 	if path != "reslice" {
 		s.off = 0
@@ -429,10 +437,43 @@ type driver struct {
 	// unread-validity (any read, write, Next, Truncate, Reset, ReadFrom,
 	// WriteTo). Observers, ReWrite and skipped operations leave it alone.
 	growSince bool
-	// consumed: some byte was consumed since construction or the last explicit
-	// Reset / Truncate(0); ReWrite is only defined by the property's text
-	// while this is false (positions then address the unread bytes).
-	consumed bool
+	// prefixDirty: a ReWrite changed consumed bytes that are still in the
+	// storage since the last call that sets or clears unread-validity. An
+	// Unread* would re-expose them, which bytes.Buffer cannot mirror: it is
+	// skipped and counted, like the one after Grow.
+	prefixDirty bool
+}
+
+// settled is called by every operation that sets or clears unread-validity.
+func (d *driver) settled() { d.growSince, d.prefixDirty = false, false }
+
+// rewrote records an executed ReWrite and names its class.
+func (d *driver) rewrote(op *Op, length int) string {
+	off := d.sh.off
+	switch {
+	case op.L == 0:
+		return "rewrite:empty"
+	case op.N+op.L <= off:
+		d.prefixDirty = true
+		return "rewrite:into-consumed-prefix"
+	case op.N < off:
+		d.prefixDirty = true
+		return "rewrite:straddles-offset"
+	case off > 0:
+		return "rewrite:after-partial-read"
+	}
+	return "rewrite:at-offset-0"
+}
+
+// rewriteModel applies ReWrite(pos, p) to a copy of the unread bytes of a
+// buffer whose storage holds off consumed bytes in front of them: storage
+// position pos+i is unread byte pos+i-off.
+func rewriteModel(unread []byte, off, pos int, p []byte) {
+	for i := range p {
+		if j := pos + i - off; j >= 0 && j < len(unread) {
+			unread[j] = p[i]
+		}
+	}
 }
 
 func newDriver(c *Ctor, measuredCap int) *driver {
@@ -461,12 +502,16 @@ func (d *driver) admit(op *Op, length int) string {
 		if d.growSince {
 			return op.K + " after Grow (excluded by the property)"
 		}
-	case "ReWrite":
-		if d.consumed {
-			return "ReWrite after bytes were consumed (positions no longer address the unread bytes)"
+		if d.prefixDirty {
+			return op.K + " after a ReWrite into the consumed prefix (the reference cannot mirror it)"
 		}
-		if op.N < 0 || op.L < 0 || op.L > maxPayload || op.N+op.L > length {
-			return "ReWrite outside the unread bytes"
+	case "ReWrite":
+		// positions index the storage: consumed bytes not yet slid away (off) come first
+		if d.sh.unknown {
+			return "ReWrite while the storage layout is not predicted"
+		}
+		if op.N < 0 || op.L < 0 || op.L > maxPayload || op.N+op.L > d.sh.off+length {
+			return "ReWrite beyond the storage"
 		}
 	case "Write", "WriteString", "Read":
 		if op.L < 0 || op.L > maxPayload {
@@ -498,34 +543,32 @@ func (d *driver) after(op *Op, lb, la int, o *outcome, measured int) (labels []s
 	s := &d.sh
 	switch op.K {
 	case "Read", "ReadByte", "ReadRune":
-		d.growSince = false
+		d.settled()
 		if lb == 0 {
 			s.off = 0
 		} else {
 			s.off += lb - la
 		}
 	case "Next":
-		d.growSince = false
+		d.settled()
 		if !o.panicked {
 			s.off += lb - la
 		}
 	case "UnreadByte", "UnreadRune":
 		s.off -= la - lb
 		if s.off < 0 {
-			s.off = 0
+			s.off, s.unknown = 0, true
 		}
 	case "Reset":
-		d.growSince = false
-		s.off = 0
-		d.consumed = false
+		d.settled()
+		s.off, s.unknown = 0, false
 	case "Truncate":
-		d.growSince = false
+		d.settled()
 		if op.N == 0 {
-			s.off = 0
-			d.consumed = false
+			s.off, s.unknown = 0, false
 		}
 	case "WriteTo":
-		d.growSince = false
+		d.settled()
 		switch {
 		case o.panicked:
 		case lb == 0, la == 0 && o.err == nil:
@@ -534,7 +577,7 @@ func (d *driver) after(op *Op, lb, la int, o *outcome, measured int) (labels []s
 			s.off += lb - la
 		}
 	case "Write", "WriteString", "WriteByte", "WriteRune":
-		d.growSince = false
+		d.settled()
 		if n := growRequest(op); n > 0 && !o.panicked {
 			labels = s.grow(lb, n, measured, false)
 		}
@@ -547,10 +590,7 @@ func (d *driver) after(op *Op, lb, la int, o *outcome, measured int) (labels []s
 			s.off = 0 // an emptied buffer is reset before the request is found too large
 		}
 	case "ReadFrom":
-		d.growSince = false // its grow steps were recorded by the reader hook
-	}
-	if la < lb {
-		d.consumed = true
+		d.settled() // its grow steps were recorded by the reader hook
 	}
 	if measured >= 0 {
 		s.cap = measured
@@ -704,6 +744,8 @@ func (g *genState) pickKind(t *rapid.T) string {
 			return "UnreadRune"
 		case roll < 55:
 			return "Grow"
+		case roll < 67:
+			return "ReWrite" // a storage position after a partial read
 		}
 	case "readrune":
 		switch {
@@ -713,6 +755,8 @@ func (g *genState) pickKind(t *rapid.T) string {
 			return "UnreadByte"
 		case roll < 60:
 			return "Grow"
+		case roll < 68:
+			return "ReWrite"
 		}
 	case "grow":
 		switch {
@@ -736,14 +780,14 @@ func (g *genState) pickKind(t *rapid.T) string {
 		}
 	case "written":
 		switch {
-		case roll < 12 && !g.d.consumed:
+		case roll < 12:
 			return "ReWrite"
 		case roll < 30:
 			return "ReadRune"
 		}
 	}
 	k := table
-	if k == "ReWrite" && (g.d.consumed || g.ref.Len() == 0) && rapid.IntRange(0, 9).Draw(t, "rewrite-anyway") > 0 {
+	if k == "ReWrite" && g.d.sh.off+g.ref.Len() == 0 && rapid.IntRange(0, 9).Draw(t, "rewrite-anyway") > 0 {
 		// would be skipped: mostly draw something useful instead
 		k = rapid.SampledFrom([]string{"Write", "Read", "Reset", "Truncate", "ReadRune"}).Draw(t, "instead")
 	}
@@ -808,18 +852,32 @@ func (g *genState) genOp(t *rapid.T) Op {
 		w.N = pickInt(t, "wn", []int{0, 1, l / 2, l - 1, l, l + 1, 7}, 0, math.MaxInt)
 		op.W = &w
 	case "ReWrite":
+		// positions index the storage: the predicted off consumed bytes, then the l unread ones
 		op.P, op.S = genPattern(t)
-		switch rapid.IntRange(0, 5).Draw(t, "rwkind") {
-		case 0: // the whole content
-			op.N, op.L = 0, l
-		case 1: // the last bytes
+		off := g.d.sh.off
+		kind := rapid.IntRange(0, 8).Draw(t, "rwkind")
+		if off == 0 && kind >= 6 {
+			kind -= 3
+		}
+		switch kind {
+		case 0: // the whole unread part
+			op.N, op.L = off, l
+		case 1: // its last bytes
 			op.L = pickInt(t, "rwlen", []int{1, 4, 8}, 0, l)
-			op.N = l - op.L
-		case 2: // a u32 at the front (the mpb length-prefix use)
-			op.N, op.L = 0, min(4, l)
-		default:
-			op.N = rapid.IntRange(0, l).Draw(t, "rwpos")
-			op.L = rapid.IntRange(0, l-op.N).Draw(t, "rwlen2")
+			op.N = off + l - op.L
+		case 2: // a u32 at its front (the mpb length-prefix use)
+			op.N, op.L = off, min(4, l)
+		case 6: // inside the consumed prefix
+			op.N = rapid.IntRange(0, off-1).Draw(t, "rwpos")
+			op.L = rapid.IntRange(1, off-op.N).Draw(t, "rwlen2")
+		case 7: // across the read offset
+			op.N = rapid.IntRange(max(0, off-8), off-1).Draw(t, "rwpos")
+			op.L = off - op.N + rapid.IntRange(0, min(l, 8)).Draw(t, "rwlen2")
+		case 8: // from the start of the storage
+			op.N, op.L = 0, pickInt(t, "rwlen", []int{1, 4, off, off + 1, off + l}, 0, off+l)
+		default: // anywhere in the unread part
+			op.N = off + rapid.IntRange(0, l).Draw(t, "rwpos")
+			op.L = rapid.IntRange(0, off+l-op.N).Draw(t, "rwlen2")
 		}
 	}
 	return op
@@ -833,7 +891,8 @@ func (g *genState) advance(op *Op) {
 		return
 	}
 	if op.K == "ReWrite" {
-		copy(g.ref.Bytes()[op.N:], payload(op.P, op.L, op.S))
+		rewriteModel(g.ref.Bytes(), g.d.sh.off, op.N, payload(op.P, op.L, op.S))
+		g.d.rewrote(op, lb)
 		return
 	}
 	o := apply(g.ref, op, func() { g.d.sh.grow(g.ref.Len(), tex.MinRead, -1, true) })
@@ -980,14 +1039,16 @@ func show(b []byte) string {
 	return fmt.Sprintf("%q…%q (len %d)", b[:20], b[len(b)-12:], len(b))
 }
 
-func diffBytes(want, got []byte) string {
+func diffBytes(want, got []byte) string { return diffNamed("bytes.Buffer", want, got) }
+
+func diffNamed(ref string, want, got []byte) string {
 	i := 0
 	for i < len(want) && i < len(got) && want[i] == got[i] {
 		i++
 	}
 	lo := max(i-4, 0)
-	return fmt.Sprintf("first difference at index %d: bytes.Buffer …%q, tex.Buffer …%q; whole: bytes.Buffer %s, tex.Buffer %s",
-		i, want[lo:min(len(want), i+12)], got[lo:min(len(got), i+12)], show(want), show(got))
+	return fmt.Sprintf("first difference at index %d: %s …%q, tex.Buffer …%q; whole: %s %s, tex.Buffer %s",
+		i, ref, want[lo:min(len(want), i+12)], got[lo:min(len(got), i+12)], ref, show(want), show(got))
 }
 
 func describe(op *Op) string {
@@ -1149,10 +1210,13 @@ func Exec(c Case) *vkit.Result {
 		at := fmt.Sprintf("step %d of %d, %s on %d unread bytes", i+1, len(c.Ops), describe(op), lb)
 
 		if op.K == "ReWrite" {
-			// slice model: exactly bytes [pos, pos+len(p)) of the unread contents change
+			// slice model over the storage: position off+j is unread byte j; exactly the
+			// addressed unread bytes change, consumed bytes in front of them are not observable
+			off := d.sh.off
+			at += fmt.Sprintf(" behind %d consumed bytes still in the storage", off)
 			p := payload(op.P, op.L, op.S)
 			want := append([]byte{}, tb.Bytes()...)
-			copy(want[op.N:], p)
+			rewriteModel(want, off, op.N, p)
 			if pv := func() (pv any) {
 				defer func() { pv = recover() }()
 				tb.ReWrite(op.N, p)
@@ -1160,15 +1224,16 @@ func Exec(c Case) *vkit.Result {
 			}(); pv != nil {
 				return res.Failf("ReWrite/panic", "%s: panics: %v", at, pv)
 			}
-			copy(ref.Bytes()[op.N:], p) // bytes.Buffer documents that Bytes() aliases the contents
+			rewriteModel(ref.Bytes(), off, op.N, p) // bytes.Buffer documents that Bytes() aliases the contents
 			if tb.Len() != len(want) || !bytes.Equal(tb.Bytes(), want) {
-				return res.Failf("ReWrite/model", "%s: Len %d -> %d; %s", at, len(want), tb.Len(), diffBytes(want, tb.Bytes()))
+				return res.Failf("ReWrite/model", "%s: Len %d -> %d; %s", at, len(want), tb.Len(), diffNamed("slice model", want, tb.Bytes()))
 			}
 			if msg := diffState(ref, tb); msg != "" {
 				return res.Failf("ReWrite/state", "%s: %s", at, msg)
 			}
 			res.Class("rewrite:done")
-			if op.L > 0 && op.N > 0 && op.N+op.L < lb {
+			res.Class(d.rewrote(op, lb))
+			if op.L > 0 && op.N > off && op.N+op.L < off+lb {
 				res.Class("rewrite:interior")
 			}
 			continue
@@ -1320,7 +1385,7 @@ func classify(res *vkit.Result, op *Op, ro *outcome, lb, la int, unreads *int) {
 // Part is the one generated check of C11.
 var Part = &vkit.Part[Case]{
 	Property: Property, Name: "differential",
-	Rule:  "rapid: a constructor (zero value | NewBuffer(bytes with spare capacity) | NewBufferString | NewSizedBuffer(k) vs a bytes.Buffer grown to k) and 1-80 operations out of Write, WriteString, WriteByte, WriteRune (ASCII, 2/3/4-byte, surrogates, negative, > MaxRune), Read(len 0..>Len), ReadByte, ReadRune (valid and invalid UTF-8 payload patterns), UnreadByte, UnreadRune, Next(n incl. > Len and negative), Truncate(n incl. invalid), Reset, Grow(n incl. negative and unallocatably large), ReadFrom(scripted reader: chunks below/at/above MinRead, (0,nil), io.EOF with data, early error, negative count), WriteTo(scripted writer: full, short write, error, over-count), Len, Bytes, String, ReWrite(pos,p) inside the unread bytes. The generator folds over a real bytes.Buffer and a prediction of the storage layout, so that sizes aim at the exact fit of the spare tail, one byte more, the largest request that still slides down, one more (reallocate) and the 64-byte small buffer; reads are followed by Unread*/Grow with raised probability. After every step results, error nil-ness and io.EOF identity, panic-or-not with equal string panic values and (Len, Bytes) of both buffers are compared. Unread* is skipped (and counted) while a Grow is the latest call that could have moved the data, ReWrite while consumed bytes precede the unread part. Non-trivial: the history exercised >= 2 different growth paths of tex.Buffer (reset-if-empty, reslice, small allocation, slide down, reallocate; classified from Cap() changes and consumed-byte bookkeeping) and >= 1 successful Unread*; distinct = distinct case JSON",
+	Rule:  "rapid: a constructor (zero value | NewBuffer(bytes with spare capacity) | NewBufferString | NewSizedBuffer(k) vs a bytes.Buffer grown to k) and 1-80 operations out of Write, WriteString, WriteByte, WriteRune (ASCII, 2/3/4-byte, surrogates, negative, > MaxRune), Read(len 0..>Len), ReadByte, ReadRune (valid and invalid UTF-8 payload patterns), UnreadByte, UnreadRune, Next(n incl. > Len and negative), Truncate(n incl. invalid), Reset, Grow(n incl. negative and unallocatably large), ReadFrom(scripted reader: chunks below/at/above MinRead, (0,nil), io.EOF with data, early error, negative count), WriteTo(scripted writer: full, short write, error, over-count), Len, Bytes, String, ReWrite(pos,p) at storage positions (consumed bytes not yet slid away come first: inside the unread part after partial reads, inside the consumed prefix, across the read offset). The generator folds over a real bytes.Buffer and a prediction of the storage layout, so that sizes aim at the exact fit of the spare tail, one byte more, the largest request that still slides down, one more (reallocate) and the 64-byte small buffer; reads are followed by Unread*/Grow with raised probability. After every step results, error nil-ness and io.EOF identity, panic-or-not with equal string panic values and (Len, Bytes) of both buffers are compared. ReWrite is judged against a slice model over the storage (storage position off+j is unread byte j, off = consumed bytes still in front, known from the same bookkeeping; exactly the addressed unread bytes change). Unread* is skipped (and counted) while a Grow is the latest call that could have moved the data or after a ReWrite touched the consumed prefix; ReWrite is skipped when it would reach beyond the storage or the layout bookkeeping was contradicted by Cap(). Non-trivial: the history exercised >= 2 different growth paths of tex.Buffer (reset-if-empty, reslice, small allocation, slide down, reallocate; classified from Cap() changes and consumed-byte bookkeeping) and >= 1 successful Unread*; distinct = distinct case JSON",
 	Quick: 30000, Thorough: 60000,
 	Gen: Gen, Exec: Exec,
 }
